@@ -37,8 +37,11 @@ impl<'a> OffsetCursor<'a> {
     /// Returns a new [`OffsetCursor`] at the beginning of the given [`typst_syntax::Span`] based
     /// on the current cursor.
     pub fn push_to_span(self, span: typst_syntax::Span) -> Self {
-        let new_byte = self.doc.range(span).unwrap().start;
+        // Synthesized nodes (e.g. a missing child of malformed markup) have no range.
+        let Some(range) = self.doc.range(span) else {
+            return self;
+        };
 
-        self.push_to(new_byte)
+        self.push_to(range.start)
     }
 }
